@@ -406,3 +406,29 @@ def size(p):
     if k == 'name':
         return size(p[2])
     raise ValueError(k)
+
+
+def minlen(p):
+    """Length of the shortest member of the pattern's language (classes assumed non-empty)."""
+    k = p[0]
+    if k in ('c', 'any', 'cls'):
+        return 1
+    if k == 'str':
+        return len(p[1])
+    if k == 'cat':
+        return minlen(p[1]) + minlen(p[2])
+    if k == 'alt':
+        return min(minlen(p[1]), minlen(p[2]))
+    if k in ('star', 'opt'):
+        return 0
+    if k == 'plus':
+        return minlen(p[1])
+    if k in ('rep', 'repmin'):
+        return minlen(p[1]) * p[2]
+    if k == 'reprange':
+        return minlen(p[1]) * p[2]
+    if k == 'flags':
+        return minlen(p[5])
+    if k == 'name':
+        return minlen(p[2])
+    raise ValueError(k)
